@@ -27,12 +27,16 @@ NILPOOLS == "nil"      \* a PoolEvent carrying no pools (rejected by SetPools)
 CtlState(L, al) == [L |-> L, al |-> al]
 CtlInit(S) == CtlState(NOCFG, [s \in S |-> NULL])
 
-(* controller.SetBalancer.  This is Controller!Handle with one correction that only matters for the
-   SyncState: Allocator.AllocationKey is the plain concatenation backend + sharing, so an
-   allocation without keys has the same key ("") as no allocation (Controller!AllocKey puts a
-   separator between the two parts and therefore reports ReprocessAll for every fresh allocation;
-   Controller.tla uses the result only to shape scenarios, here it is judged).  Everything else
-   (Converge, AllocateIPs, the allocator operators) is re-used unchanged.                         *)
+(* controller.SetBalancer: the C20 family's transcription of the SyncState logic of
+   controller/main.go, kept in step with the code (it is Controller!Handle except for the points
+   below; Converge, AllocateIPs and the allocator operators are re-used unchanged):
+   - Allocator.AllocationKey is the plain concatenation backend + sharing, so an allocation without
+     keys has the same key ("") as no allocation;
+   - since the fix "reprocess all services also when the released allocation was never persisted"
+     the gave-up-an-address test comes before the no-change early return, i.e. it no longer
+     depends on the Service object needing a write.
+   A lag of this transcription behind the code shows up as DRIFT in ListenerTrace, never as a
+   violation.                                                                                   *)
 LAllocKey(al, s) == IF al[s] = NULL THEN "" ELSE al[s].bk \o al[s].sk
 LHandle(L, al, s, o) ==
   IF o = NULL THEN
@@ -46,7 +50,7 @@ LHandle(L, al, s, o) ==
          res1 == IF LAllocKey(al, s) # LAllocKey(c.al, s) THEN "ReprocessAll" ELSE res0
          changed == c.status # o.status \/ c.ann # o.ann
          gaveUp == IF c.al[s] = NULL THEN TRUE ELSE ~(Range(prevIPs) \subseteq Range(c.al[s].ips))
-         res2 == IF changed /\ prevIPs # <<>> /\ gaveUp /\ PoolsFor(L, Range(prevIPs)) # {}
+         res2 == IF prevIPs # <<>> /\ gaveUp /\ PoolsFor(L, Range(prevIPs)) # {}
                  THEN "ReprocessAll" ELSE res1
      IN [al |-> c.al, res |-> res2, write |-> changed, status |-> c.status, ann |-> c.ann]
      : c \in Converge(L, al, s, o) }
